@@ -29,6 +29,7 @@ type Contract struct {
 	Ensures  []Clause
 	Modifies []string
 	ModGiven bool
+	Ats      map[string][]Clause // call-site assertions keyed "Name#k"
 	Loops    map[int][]Clause // invariants by loop ordinal (1-based, source order of loop headers)
 	LoopMod  map[int][]string
 	Options  map[string]string
@@ -62,17 +63,19 @@ type ContractDB struct {
 	Transp    map[string]bool // pkg::FuncKey forced transparent
 	Opaque    map[string]bool // pkg::FuncKey never inlined (havoc/uninterpreted)
 	Files     []string
+	Ghosts    map[string]string // ghost map name -> value sort (int|bool)
+	ConstGlobals map[string]string
 }
 
 func newContractDB() *ContractDB {
-	return &ContractDB{Contracts: map[string]*Contract{}, Pures: map[string]*PureFn{}, Transp: map[string]bool{}, Opaque: map[string]bool{}}
+	return &ContractDB{Contracts: map[string]*Contract{}, Pures: map[string]*PureFn{}, Transp: map[string]bool{}, Opaque: map[string]bool{}, Ghosts: map[string]string{}, ConstGlobals: map[string]string{}}
 }
 
 var labelRe = regexp.MustCompile(`^\[([A-Za-z0-9_.:\-]+)\]\s*`)
 
 var clauseKeywords = map[string]bool{"func": true, "pure": true, "lemma": true, "props": true, "requires": true, "ensures": true,
 	"modifies": true, "loop": true, "option": true, "assumed": true, "package": true, "transparent": true, "opaque": true,
-	"hyp": true, "concl": true, "end": true}
+	"hyp": true, "concl": true, "end": true, "at": true, "ghostmap": true, "constglobal": true}
 
 // parseContractText parses the //@ lines of one file. defaultPkg is the package path the file
 // belongs to (for /repo files) or "" (prelude files must use `package` lines).
@@ -176,7 +179,7 @@ func (db *ContractDB) parseContractText(file, text, defaultPkg string) error {
 			}
 		case "func":
 			key := strings.TrimSpace(c.rest)
-			cur = &Contract{Pkg: pkg, FuncKey: key, Loops: map[int][]Clause{}, LoopMod: map[int][]string{}, Options: map[string]string{}, File: file, Line: c.line}
+			cur = &Contract{Pkg: pkg, FuncKey: key, Ats: map[string][]Clause{}, Loops: map[int][]Clause{}, LoopMod: map[int][]string{}, Options: map[string]string{}, File: file, Line: c.line}
 			if old, dup := db.Contracts[pkg+"::"+key]; dup {
 				return fmt.Errorf("%s:%d: duplicate contract for %s (also %s:%d)", file, c.line, key, old.File, old.Line)
 			}
@@ -245,6 +248,32 @@ func (db *ContractDB) parseContractText(file, text, defaultPkg string) error {
 			default:
 				return fmt.Errorf("%s:%d: unknown loop clause %s", file, c.line, f[1])
 			}
+		case "at":
+			// at NAME K assert EXPR
+			f := strings.Fields(c.rest)
+			if cur == nil || len(f) < 4 || f[2] != "assert" {
+				return fmt.Errorf("%s:%d: bad at clause (at NAME K assert EXPR)", file, c.line)
+			}
+			rest := strings.TrimSpace(c.rest[strings.Index(c.rest, " assert ")+8:])
+			cl, err := mkClause(rest, c.line)
+			if err != nil {
+				return err
+			}
+			cur.Ats[f[0]+"#"+f[1]] = append(cur.Ats[f[0]+"#"+f[1]], cl)
+		case "ghostmap":
+			// ghostmap NAME int|bool
+			f := strings.Fields(c.rest)
+			if len(f) != 2 {
+				return fmt.Errorf("%s:%d: bad ghostmap", file, c.line)
+			}
+			db.Ghosts[f[0]] = f[1]
+		case "constglobal":
+			// constglobal pkgpath.Name zero
+			f := strings.Fields(c.rest)
+			if len(f) != 2 || f[1] != "zero" {
+				return fmt.Errorf("%s:%d: bad constglobal", file, c.line)
+			}
+			db.ConstGlobals[f[0]] = f[1]
 		case "option":
 			f := strings.Fields(c.rest)
 			if cur == nil || len(f) < 1 {
